@@ -89,6 +89,64 @@ func ruleReaderSegment(c *eng.Ctx) {
 			}
 		}
 	}
+	// moving on to the next segment: only to a segment that exists, and reading restarts at its beginning
+	for _, r := range readers {
+		segF := p.Field(clPkg, r.typ, "seg")
+		posF := p.Field(clPkg, r.typ, "pos")
+		if segF == nil || posF == nil {
+			continue
+		}
+		for _, fn := range p.Funcs {
+			if fn.Pkg == nil || fn.Pkg != p.SSAPkg[clPkg] {
+				continue
+			}
+			for _, st := range eng.FieldStores(fn, func(fa *ssa.FieldAddr) bool { return fieldIs(fa, segF) }) {
+				ref, call := lookup(st.Val)
+				if ph, isPhi := st.Val.(*ssa.Phi); isPhi && len(ph.Edges) > 0 {
+					ref, call = lookup(ph.Edges[0])
+				}
+				if ref != cl+"findSegmentByBaseOffset" || call == nil {
+					continue
+				}
+				// (a) the successor exists
+				stored := st.Val
+				exists := eng.CmpEdges(fn, func(v ssa.Value) bool { return v == stored || eng.Strip(v) == eng.Strip(stored) }, eng.NilConst, eng.NE)
+				g, w := eng.GuardedBy(fn, st, exists)
+				// (b) the position is reset before the next read from the segment
+				q := &eng.PathQuery{Fn: fn, FromAfter: []ssa.Instruction{st}, Target: eng.IsCallTo(cl + "segment.ReadAt"), CutInstr: func(x ssa.Instruction) bool {
+					s2, ok := x.(*ssa.Store)
+					if !ok {
+						return false
+					}
+					fa, ok := s2.Addr.(*ssa.FieldAddr)
+					return ok && fieldIs(fa, posF) && eng.IntConst(0)(s2.Val)
+				}}
+				w2 := q.Find()
+				c.Check(g && len(exists) > 0 && w2 == nil, r.typ+" moves to an existing successor segment and restarts at position 0 ("+fn.Name()+")", c.Pos(st), "r.seg = nextSeg only on nextSeg != nil; r.pos = 0 before the next ReadAt", "the reader switches to the next segment without it existing (path "+w.String()+") or keeps its old position in the new segment (path "+w2.String()+"): it dereferences nil, or skips / mis-frames the first messages of the segment")
+			}
+		}
+	}
+	// the segment searches answer "no such segment" exactly when the search ran off the end
+	for _, k := range []string{"findSegment", "findSegmentByBaseOffset"} {
+		fn := c.Fn(cl + k)
+		if fn == nil {
+			continue
+		}
+		off := eng.CmpEdges(fn, eng.Call(-1, "sort.Search"), eng.Len(eng.Param("segments")), eng.EQ)
+		in := eng.CmpEdges(fn, eng.Call(-1, "sort.Search"), eng.Len(eng.Param("segments")), eng.NE)
+		ok := len(off) > 0 && len(in) > 0
+		for _, r := range eng.Returns(fn) {
+			rv := eng.RetVals(r)
+			if eng.NilConst(rv[0]) {
+				if g, _ := eng.GuardedBy(fn, r, off); !g {
+					ok = false
+				}
+			} else if g, _ := eng.GuardedBy(fn, r, in); !g {
+				ok = false
+			}
+		}
+		c.Check(ok, k+" answers nil exactly when no segment qualifies", p.Pos(fn.Pos()), "idx == len(segments) ? nil : segments[idx]", k+" returns nil for a segment that exists or indexes past the end of the list")
+	}
 	// a Reader that has to re-open after its segment was replaced resumes right after the last message it returned
 	if fn := c.Fn(cl + "(*Reader).ReadMessage"); fn != nil {
 		of := p.Field(clPkg, "Reader", "offset")
